@@ -7,12 +7,17 @@ PLAN = {"quick": [("overlay", 200), ("probe", 100), ("api", 60)],
 
 def gen_case(rng, cid, mode):
     sc = scripts.gen_script(rng, maxlen=rng.randint(5, 45), maxdepth=5, p_call=0.4, reads=False,
-                            fns=rng.choice(["fgh", "fg", "fh", "f"]))
+                            fns=rng.choice(["fgh", "fg", "fh", "f"]), decl=(mode != "probe"))
     fns = P.script_fns(sc)
     hs = []
-    for _ in range(4):
-        s = S.strip_focus(S.gen_sel(rng, fns=fns, names=("a", "b", "p", "c", "i"), maxdepth=rng.choice([1, 2, 3])))
+    for _ in range(3):
+        s = S.strip_focus(S.gen_sel(rng, fns=fns, names=("a", "b", "p", "c", "i", "d"), maxdepth=rng.choice([1, 2, 3])))
         hs.append(W.norm_handler({"kind": "tot", "sel": s}))
+    if mode != "api":
+        # focused selectors forced to total mode: one record per binding of the focus variable
+        for _ in range(2):
+            s = S.gen_sel(rng, fns=fns, names=("a", "b", "p", "c", "i"), maxdepth=rng.choice([1, 2, 2, 3]))
+            hs.append(W.norm_handler({"kind": "tot", "sel": s, "ptype": "total"}))
     return {"id": cid, "script": sc, "arg": 0, "handlers": hs}
 
 
